@@ -61,8 +61,9 @@ class C03(fw.Property):
                   "when no matching ACK/RST arrives, no copy after a matching ACK/RST (RST fails the request), foreign ACK/RST inert, defaults and "
                   "derived spans equal to RFC 7252 (formulas translated from constants.py on every run), no internal KeyError/AssertionError; "
                   "round 2: no copy after a transport error (dispatch_error) for the remote, cancellation and separate responses are inert for the "
-                  "message layer (documented Examples), all for transports that do not refuse datagrams synchronously; refusing transports are "
-                  "modelled faithfully and refute the give-up / no-internal-error / NSTART statements (vm_compute witnesses, two open findings).")
+                  "message layer (documented Examples), all for transports that do not refuse datagrams synchronously; for refusing transports "
+                  "(modelled faithfully, code after fixes 11456f9/8d04b7c) step-level theorems: a refused first transmission / retransmission puts "
+                  "nothing on the wire, ends the exchange and fails the remote's pending requests with NetworkError at that instant.")
     level_note = ("The model is hand-written and tied to the code by the differential run (full per-event trace and final exchange table, read from the "
                   "real objects). Timers are ideal (fire exactly when due). NON messages, observation, shutdown are outside the model's event "
                   "alphabet (C02/C10/C14/C18). Python computes delays in floats; "
@@ -81,8 +82,8 @@ class C03(fw.Property):
                     "harness/simloop.py ideal timer service, harness/simnet.py fake transport"]
     assumptions = ["timers fire exactly when due (virtual loop); real selector-loop jitter is not modelled",
                    "event alphabet of the model: CON requests, empty ACK/RST, 2.05 responses (piggy-backed / separate CON / NON), transport errors, "
-                   "request cancellation, synchronously refusing remotes; the theorems assume a transport that does not refuse synchronously "
-                   "(open findings C03:refused-retransmission:exchange-survives, C03:refused-backlog-release:keyerror, witnesses in Props/C03.v)"]
+                   "request cancellation, synchronously refusing remotes; the run-level theorems assume a transport that does not refuse synchronously, "
+                   "for refusing transports there are step-level theorems (C03_refused_*_partial) and the correspondence run"]
 
     def setup(self):
         import logging
@@ -443,9 +444,8 @@ class C03(fw.Property):
         return None
 
     def oracle_retransmit(self, inp, res):
-        """The property, recomputed from the input on the observed trace.  A remote on which a RETRANSMISSION was refused by the
-        transport is `tainted`: the code keeps the exchange (open finding); every deviation that involves such a remote is reported
-        under the finding's own signature."""
+        """The property, recomputed from the input on the observed trace.  A refused (re)transmission must fail the requests towards
+        that remote with NetworkError at that instant and end the exchange (no further copy); `tainted` only annotates messages."""
         tun = {}; remote_of = {}; pending = {}      # pending: request still waiting in the token manager
         info = {}     # rid -> dict(times, mid, t, state)   state in open/acked/reset/timedout/errored
         refusing = set(); tainted = set()
@@ -458,8 +458,7 @@ class C03(fw.Property):
                     if best is None or due < best[0]: best = (due, rid)
             return best
         def V(sig, msg, r=None):
-            if r is not None and r in tainted:
-                return ("C03:refused-retransmission:exchange-survives", "[after a refused retransmission to remote %d] %s: %s" % (r, sig, msg))
+            if r is not None and r in tainted: return (sig, "[after a refused retransmission to remote %d] %s" % (r, msg))
             return (sig, msg)
         for ev, step in zip(inp["events"], res["steps"]):
             sends = [e for e in step if e[0] == "send"]; fails = [e for e in step if e[0] == "fail"]
@@ -480,7 +479,7 @@ class C03(fw.Property):
             if errors:
                 nm = str(errors[0][2])
                 if nm == "KeyError" and ev[0] in ("recv", "resp") and ev[1] in refusing:
-                    return ("C03:refused-backlog-release:keyerror", "KeyError out of _continue_backlog: the release of a backlogged message to remote %d was refused by the transport during %s" % (ev[1], ev))
+                    return ("C03:internal-exception:KeyError", "KeyError out of _continue_backlog: the release of a backlogged message to remote %d was refused by the transport during %s" % (ev[1], ev))
                 if tainted and (ev[0] in ("fire", "firedue") or (len(ev) > 1 and ev[1] in tainted)):
                     return V("C03:internal-exception:" + nm, "exception %s during %s" % (nm, ev), sorted(tainted)[0])
                 return ("C03:internal-exception:" + nm, "exception %s escaped during %s" % (nm, ev))
